@@ -282,7 +282,7 @@ func farmClientBind(f *Farm, bindAP netip.AddrPort, T time.Duration, udpIDs, tcp
 	}
 	bind := types.BindAddrFrom(bindAP.Addr(), bindAP.Port())
 	bc := types.BroadcastAddrFrom(netip.AddrFrom4([4]byte{127, 0, 0, 1}), uint16(f.Port))
-	return uhppote.NewUHPPOTE(bind, bc, types.ListenAddrFrom(netip.AddrFrom4([4]byte{127, 0, 0, 1}), 60001), T, devs, false)
+	return uhppote.NewUHPPOTE(bind, bc, types.ListenAddrFrom(netip.AddrFrom4([4]byte{127, 0, 0, 1}), 60001), T, devs, farmDebug)
 }
 
 // ---- process resources ----
@@ -317,3 +317,6 @@ func settle() (int, int) {
 func ms(d time.Duration) int64 { return d.Milliseconds() }
 
 var _ = fmt.Sprintf
+
+// real-driver clients in debug mode (hex dumps of every request and reply go to the discarded stdout)
+var farmDebug bool
